@@ -65,6 +65,79 @@ def _neg_slices(fn):
     return out
 
 
+def _handler_action(h):
+    """what an except clause does, as far as the fault model cares"""
+    body = [n for n in h.body if not (isinstance(n, ast.Expr) and isinstance(n.value, ast.Call)
+                                      and isinstance(n.value.func, ast.Name) and n.value.func.id == "print")]
+    if not body:
+        return "warn"
+    if len(body) == 1 and isinstance(body[0], ast.Pass):
+        return "pass"
+    if len(body) == 1 and isinstance(body[0], ast.Raise) and isinstance(body[0].exc, ast.Call) \
+            and isinstance(body[0].exc.func, ast.Name):
+        return "raise " + body[0].exc.func.id
+    return "other"
+
+
+def _handlers(t):
+    out = []
+    for h in t.handlers:
+        ty = h.type
+        names = [e.id for e in ty.elts] if isinstance(ty, ast.Tuple) else [ty.id if isinstance(ty, ast.Name) else "*"]
+        out.append(("|".join(names), _handler_action(h)))
+    return out
+
+
+def _top_tries(fn):
+    """try statements of a function body that are not nested in another try"""
+    out = []
+
+    def walk(nodes):
+        for n in nodes:
+            if isinstance(n, ast.Try):
+                out.append(n)
+            else:
+                for f in ("body", "orelse"):
+                    if hasattr(n, f) and isinstance(getattr(n, f), list):
+                        walk(getattr(n, f))
+    walk(fn.body)
+    return out
+
+
+def _nested_tries(t):
+    return sum(1 for n in ast.walk(t) if isinstance(n, ast.Try)) - 1
+
+
+def _fault_handling(cls):
+    save, commit, fin = find(cls, "__save"), find(cls, "__commit"), find(cls, "finalize")
+    st, ct = _top_tries(save), _top_tries(commit)
+    if len(st) != 1 or len(ct) != 2:
+        raise ExtractError("__save/__commit: unexpected try structure")
+    # the rename of __save is the last statement of the try body (not in a finally)
+    last = st[0].body[-1]
+    rename_in_try = isinstance(last, ast.Expr) and isinstance(last.value, ast.Call) and \
+        getattr(last.value.func, "id", "") == "replacePath" and not st[0].finalbody
+    # the first try of __commit does not return/raise from its handler: control reaches the unlink
+    fin_commit = [n for n in ast.walk(fin) if isinstance(n, ast.Call) and isinstance(n.func, ast.Attribute)
+                  and n.func.attr.endswith("__commit")]
+    if len(fin_commit) != 1 or len(fin_commit[0].args) != 1:
+        raise ExtractError("finalize: __commit call not found")
+    return [
+        "/-- exception handling the fault model transliterates: (caught types, action) -/",
+        "def saveHandlers : List (String × String) := " + _pairs(_handlers(st[0])),
+        "def saveRenameLastInTry : Bool := " + ("true" if rename_in_try else "false"),
+        "def saveNestedTries : Nat := %d" % _nested_tries(st[0]),
+        "def commitHandlers : List (String × String) := " + _pairs(_handlers(ct[0])),
+        "def commitNestedTries : Nat := %d" % _nested_tries(ct[0]),
+        "def discardHandlers : List (String × String) := " + _pairs(_handlers(ct[1])),
+        "def finalizeVerifies : Bool := " + ("true" if literal(fin_commit[0].args[0]) else "false"),
+    ]
+
+
+def _pairs(ps):
+    return "[" + ", ".join("(%s, %s)" % (lean_str(a), lean_str(b)) for a, b in ps) + "]"
+
+
 def extract(repo):
     t = parse(repo, "pym/bob/state.py")
     cls = find(t, "_BobState")
@@ -136,7 +209,7 @@ def extract(repo):
            "def trailerLen : Nat := %d" % struct.calcsize(fmt),
            "def trailerBigEndian : Bool := " + ("true" if fmt[0] in ">!" else "false"),
            "def verifySlice : Nat := %d" % slices[0],
-           "def stateKeys : List String := " + lean_str_list(keys),
+           "def stateKeys : List String := " + lean_str_list(keys)] + _fault_handling(cls) + [
            "end Consts.C10", ""]
     return "\n".join(out)
 
